@@ -1,6 +1,7 @@
 import Req.Client.DigestAuth
 import Req.Lemmas.C20Verify
 import Req.Lemmas.C20Accept
+import Req.Lemmas.C20Parse
 /-!
 Helper lemmas for C20 (repaired code, `Req.DigestAuth`): the credentials automaton of the RFC 7616
 verifier reads back what `authorize` writes with `quote` — every value made of field-value
@@ -238,6 +239,60 @@ theorem quoted_values_of_header {q : UInt8 → Bool} (l : List Param)
   intro p hp hq
   simp only [List.all_append, Bool.and_eq_true] at h
   exact all_of_renderParam p hq (all_of_commaJoin _ h.2 (renderParam p) (List.mem_map_of_mem hp))
+
+/-! ### … and conversely: field-value parameters give a header that is a field value -/
+
+set_option maxRecDepth 100000 in
+theorem tok_text : ∀ c, isTokenByte c = true → isText c = true := forall_uint8 _ (by decide)
+
+theorem all_tok_text {s : Bytes} (h : s.all isTokenByte = true) : s.all isText = true := by
+  rw [List.all_eq_true] at h ⊢
+  intro x hx
+  exact tok_text x (h x hx)
+
+theorem quoteBody_text : ∀ s : Bytes, s.all isText = true → (quoteBody s).all isText = true := by
+  intro s
+  induction s with
+  | nil => intro _; rfl
+  | cons c cs ih =>
+    intro h
+    simp only [List.all_cons, Bool.and_eq_true] at h
+    unfold quoteBody
+    split
+    · simp only [List.all_cons, Bool.and_eq_true]
+      exact ⟨by decide, h.1, ih h.2⟩
+    · simp only [List.all_cons, Bool.and_eq_true]
+      exact ⟨h.1, ih h.2⟩
+
+theorem renderParam_text (p : Param) (h : Param.okT p) : (renderParam p).all isText = true := by
+  obtain ⟨_, hn, hv⟩ := h
+  unfold renderParam
+  split
+  · rename_i hq
+    simp only [hq, if_true] at hv
+    simp only [quote, List.all_append, List.all_cons, Bool.and_eq_true, List.all_nil, Bool.and_true]
+    exact ⟨all_tok_text hn, by decide, by decide, quoteBody_text _ hv, by decide⟩
+  · rename_i hq
+    simp only [hq, Bool.false_eq_true, if_false] at hv
+    simp only [bare, List.all_append, List.all_cons, Bool.and_eq_true]
+    exact ⟨all_tok_text hn, by decide, all_tok_text hv.2⟩
+
+theorem commaJoin_text : ∀ (l : List Bytes), (∀ x ∈ l, x.all isText = true) → (commaJoin l).all isText = true
+  | [], _ => rfl
+  | [y], h => by simpa [commaJoin] using h y (by simp)
+  | y :: z :: r, h => by
+    simp only [commaJoin, List.all_append, List.all_cons, Bool.and_eq_true]
+    exact ⟨h y (by simp), by decide, by decide,
+      commaJoin_text (z :: r) (fun x hx => h x (List.mem_cons_of_mem _ hx))⟩
+
+theorem header_text (l : List Param) (h : ∀ p ∈ l, Param.okT p) :
+    (digestPrefix ++ commaJoin (l.map renderParam)).all isText = true := by
+  simp only [List.all_append, Bool.and_eq_true]
+  refine ⟨by decide, commaJoin_text _ ?_⟩
+  intro x hx
+  simp only [List.mem_map] at hx
+  obtain ⟨p, hp, rfl⟩ := hx
+  exact renderParam_text p (h p hp)
 
 end Req.Rfc7616
 
